@@ -482,10 +482,22 @@ fn emit(run: &mut Run, case: String, nontrivial_hint: bool) {
 pub fn run(args: &Args) {
     let mut run = Run::new("c15", &args.out);
     if let Some(case) = &args.replay {
-        let (stream, input, out, fails) = exec(&mut run, case);
-        println!("case: {stream} {input}");
-        println!("impl: {out}");
-        for (s, d) in fails { println!("ORACLE-FAIL {s} {d}"); }
+        const STREAMS: [&str; 14] = ["rtp_marshal", "rtp_parse", "rtp_parse_ref", "ext_get", "ext_set", "rtcp_marshal", "rtcp_parse",
+            "rtcp_parse_ref", "utf8", "rtx_wrap", "rtx_unwrap", "nackbuf", "gap", "-"];
+        let first = case.split_whitespace().next().unwrap_or("-");
+        // replay files written for a model/implementation disagreement carry the input without its
+        // stream name: try every stream the input is well-formed for
+        let cands: Vec<String> = if STREAMS.contains(&first) { vec![case.clone()] } else { STREAMS[..13].iter().map(|s| format!("{s} {case}")).collect() };
+        for c in cands {
+            let c2 = c.clone();
+            let dir = format!("{}/replay", args.out);
+            let r = catch(move || { let mut run = Run::new("c15", &dir); exec(&mut run, &c2) });
+            if let Ok((stream, input, out, fails)) = r {
+                println!("case: {stream} {input}");
+                println!("impl: {out}");
+                for (s, d) in fails { println!("ORACLE-FAIL {s} {d}"); }
+            }
+        }
         return;
     }
     let mut rng = Rng::new(args.seed);
@@ -563,7 +575,7 @@ pub fn run(args: &Args) {
             emit(&mut run, format!("ext_set {et} {id} {}", hex(&rng.bytes(n))), true);
         }
     }
-    emit(&mut run, "ext_set 48862:1f000000 1 aa".into(), true);
+    emit(&mut run, "ext_set 48862:1f000000 2 aa".into(), true);
 
     // ---- RTCP: logical compound packets → marshal (+ round trip, framing, reference), bytes → parse, mutations
     for i in 0..6000 * scale {
